@@ -15,6 +15,7 @@ VALUES = {'i3': 3, 'f15': 1.5, 'good': 'good', 'i7': 7, 'i5': 5, 'none': None, '
 RVALUES = {3: 'i3', 1.5: 'f15', 'good': 'good', 7: 'i7', 5: 'i5', 2 ** 53 + 1: 'big'}
 FOREIGN = {
     'valid': ('foreign_valid.csv', b'cluster_id,foreignfield\n0,5\n2,7\n'),
+    'tabcsv': ('foreign_tab.csv', b'cluster_id\tftab\n0\t5\n2\t7\n'),
     'multi': ('foreign_multi.tsv', b'cluster_id\tfa\tfb\n0\t\t5\n2\t7\t\n'),
     'samefield': ('foreign_quality.csv', b'cluster_id,quality\n0,5\n4,7\n'),
     'empty': ('foreign_empty.csv', b''),
@@ -36,6 +37,7 @@ class Rig(object):
         ds = D.random_dense(rng, ns=int(rng.randint(6, 14)), nt=3, nc=4, nsw=[3, 4][k % 2], raw=True,
                             whitening=['none', 'monomial'][k % 2], rate=[1024, 0.015625][(k // 2) % 2])
         ds['sc'] = None
+        ds['samples'][0] = k % 2          # the first spike within half a window of the START of the recording
         self.ds = ds
         # layouts: KiloSort names (no cluster file: the loader creates the copy); ALF names with a cluster file;
         # ALF names carrying a label before the extension (what the ALF export writes for one probe of several)
@@ -103,9 +105,22 @@ class Rig(object):
                    stEqual=bool(np.array_equal(m.spike_templates, self.st0)),
                    timesEqual=bool(np.array_equal(m.spike_times, self.t0)), storeEqualsRaw=True)
         if m.spike_waveforms is not None:
-            from phylib.io.traces import extract_waveforms
             sw = m.spike_waveforms
             ok = True
+            full = np.asarray(m.traces[:])
+            nsw = int(m.n_samples_waveforms)
+
+            def extract_waveforms(traces, samples, ch, n_samples_waveforms=None):
+                # the statement's window, computed here from the loaded recording (NOT by the library): rows
+                # [s - n//2, s - n//2 + n) with zeros outside the recording and on channels given as -1
+                ch = np.asarray(ch)
+                out = np.zeros((len(samples), nsw, len(ch)), dtype=np.float64)
+                for q, s0 in enumerate(np.asarray(samples, dtype=np.int64)):
+                    for r in range(nsw):
+                        row = int(s0) - nsw // 2 + r
+                        if 0 <= row < full.shape[0]:
+                            out[q, r, ch >= 0] = full[row, ch[ch >= 0]]
+                return out
             for j, sid in enumerate(np.asarray(sw.spike_ids)):
                 ch = np.asarray(sw.spike_channels)[j]
                 direct = extract_waveforms(m.traces, m.spike_samples[[sid]], ch,
